@@ -166,6 +166,13 @@ def run_selftest(pid):
             jobs.append(("refactors", n, os.path.join(rdir, n + ".diff")))
     except Exception:
         pass
+    # independently seeded changes written for this property (sub-agents; see DESIGN.md 10.7-10.10)
+    import glob
+    out["seeded"] = {}
+    for d in sorted(glob.glob(os.path.join(VERIF, "seeded", pid + "-*"))):
+        pf = os.path.join(d, "patch.diff")
+        if os.path.exists(pf):
+            jobs.append(("seeded", os.path.basename(d), pf))
 
     def one(kind, name, patch):
         work = tempfile.mkdtemp(prefix="st-", dir=os.environ.get("VERIF_WORK") or tempfile.gettempdir())
@@ -178,7 +185,7 @@ def run_selftest(pid):
             e2 = dict(os.environ, VERIF_EVIDENCE_DIR=os.path.join(work, "ev"), VERIF_NO_SELFTEST="1", PYTHONHASHSEED="0")
             r = subprocess.run([sys.executable, os.path.join(HERE, "check.py"), pid, "--tier", "quick", "--repo", scratch],
                                capture_output=True, text=True, env=e2)
-            if kind == "mutants":
+            if kind in ("mutants", "seeded"):
                 return kind, name, "reported" if r.returncode == 1 else "MISSED"
             return kind, name, "silent" if r.returncode == 0 else "FALSE ALARM"
         finally:
@@ -186,9 +193,11 @@ def run_selftest(pid):
     with cf.ThreadPoolExecutor(max_workers=12) as ex:
         for kind, name, res in ex.map(lambda j: one(*j), jobs):
             out[kind][name] = res
-    bad = [n for n, r in out["mutants"].items() if r == "MISSED"] + [n for n, r in out["refactors"].items() if r == "FALSE ALARM"]
-    out["summary"] = "mutants reported %d/%d, refactors silent %d/%d" % (
+    bad = [n for n, r in out["mutants"].items() if r == "MISSED"] + [n for n, r in out["refactors"].items() if r == "FALSE ALARM"] \
+        + [n for n, r in out["seeded"].items() if r == "MISSED"]
+    out["summary"] = "mutants reported %d/%d, seeded changes reported %d/%d, refactors silent %d/%d" % (
         sum(1 for r in out["mutants"].values() if r == "reported"), len(out["mutants"]),
+        sum(1 for r in out["seeded"].values() if r == "reported"), len(out["seeded"]),
         sum(1 for r in out["refactors"].values() if r == "silent"), len(out["refactors"]))
     print("SELFTEST %s: %s%s" % (pid, out["summary"], (" ; attention: " + ", ".join(bad)) if bad else ""))
     return out
